@@ -1,6 +1,6 @@
 SPECIFICATION TSpec
 CONSTANTS
-  MaxPool = 4
+  MaxPool = 16
   Strategies = {"rr"}
   Keys = {"a", "b", "c", "-"}
   Pools = {1}
